@@ -17,7 +17,7 @@ from formak.ast_tools import (
     SourceFile,
 )
 from formak.exceptions import ModelConstructionError
-from sympy import Symbol, ccode, cse, diff, simplify
+from sympy import Derivative, Dummy, Matrix, Symbol, ccode, cse, simplify
 
 from formak import ast_fragments as fragments
 from formak import common
@@ -94,6 +94,29 @@ class CppCompileResult:
     success: bool
     header_path: Optional[str] = None
     source_path: Optional[str] = None
+
+
+def _partial_derivative(model, symbol):
+    """
+    Derivative of a model expression, taken as a real function, in closed form.
+
+    sympy differentiates a Symbol without assumptions as a complex variable
+    (d|v|/dv keeps Derivative(re(v), v)) and leaves e.g. d Mod(v, c)/dv
+    unevaluated; CSE and simplify silently turn such a Derivative into 0.
+    """
+    matrix = Matrix([model])
+    real = {
+        s: Dummy(s.name, real=True) for s in matrix.free_symbols if s.is_real is None
+    }
+    undo = {d: s for s, d in real.items()}
+    result = (
+        matrix.xreplace(real).jacobian([real.get(symbol, symbol)]).xreplace(undo)
+    )
+    if result.has(Derivative):
+        raise ModelConstructionError(
+            "A partial derivative of the model has no closed form"
+        )
+    return result[0, 0]
 
 
 class BasicBlock:
@@ -468,7 +491,7 @@ class ExtendedKalmanFilter:
             model = symbolic_model.state_model[symbol]
             for state_idx, state in enumerate(self.arglist_state):
                 assignment = f"jacobian({idx}, {state_idx})"
-                expr_before = diff(model, state)
+                expr_before = _partial_derivative(model, state)
                 expr_after = expr_before.subs(subs_set)
                 yield assignment, expr_after
 
@@ -506,7 +529,7 @@ class ExtendedKalmanFilter:
             model = symbolic_model.state_model[symbol]
             for control_idx, control in enumerate(self.arglist_control):
                 assignment = f"jacobian({idx}, {control_idx})"
-                expr_before = diff(model, control)
+                expr_before = _partial_derivative(model, control)
                 expr_after = expr_before.subs(subs_set)
                 yield assignment, expr_after
 
@@ -659,7 +682,7 @@ class ExtendedKalmanFilter:
         ):
             for state_idx, state in enumerate(self.arglist_state):
                 assignment = f"jacobian({reading_idx}, {state_idx})"
-                expr_before = diff(model, state)
+                expr_before = _partial_derivative(model, state)
                 expr_after = expr_before.subs(subs_set)
                 yield assignment, expr_after
 
